@@ -1068,6 +1068,10 @@ private:
         continue;
       s->closed = true;
       delEpoll(s->fd);
+      // Drop the fd tag as closeNow does: the Session is freed by the clear() below,
+      // and a tag left behind would (a) dangle and (b) win over the tag of a new
+      // session that reuses this fd number after a restart (emplace keeps the old one).
+      _fdTags.erase(s->fd);
       // SSL_shutdown before close(fd) — same ordering as closeNow
       if (s->ssl)
       {
